@@ -219,6 +219,19 @@ func ruleOpTable(p *core.Program) []core.Obligation {
 								body = fd.Body
 							}
 						}
+						// an entry produced by a factory from a named comparator: boolComparison(greater). The factory's
+						// closure must apply its parameter to (operands[0], operands[1]); the comparator then is the operation
+						if ce, ok := kv.Value.(*ast.CallExpr); ok && body == nil && len(ce.Args) == 1 {
+							if sh, ok := factoryShape(rp, ce, isOperand("0"), isOperand("1")); ok {
+								switch {
+								case sh != want:
+									obs = append(obs, core.Ob(rule, key, site, nm.Name, core.Violated, fmt.Sprintf("the entry computes %s, the reference computes %s for parser.%s", sh.describe(), want.describe(), tok)))
+								default:
+									obs = append(obs, core.Ob(rule, key, site, nm.Name, core.Held, "computes "+sh.describe()+" (comparator handed to a factory) like the reference arm parser."+tok))
+								}
+								continue
+							}
+						}
 						if body == nil {
 							obs = append(obs, core.Ob(rule, key, site, nm.Name, core.Undecided, "entry is neither a function literal nor a function of the package"))
 							continue
@@ -250,6 +263,74 @@ func ruleOpTable(p *core.Program) []core.Obligation {
 		}
 	}
 	return obs
+}
+
+// factoryShape resolves `factory(comparator)`: the factory returns a function literal that calls its parameter
+// with the two operands; the comparator is a package function returning one operation on its two parameters.
+func factoryShape(pk *packages.Package, ce *ast.CallExpr, isFirst, isSecond func(ast.Expr) bool) (opShape, bool) {
+	fid, ok1 := ce.Fun.(*ast.Ident)
+	cid, ok2 := ce.Args[0].(*ast.Ident)
+	if !ok1 || !ok2 {
+		return opShape{}, false
+	}
+	fd, _ := findRefBody(pk, fid.Name).(*ast.FuncDecl)
+	cd, _ := findRefBody(pk, cid.Name).(*ast.FuncDecl)
+	if fd == nil || cd == nil || fd.Type.Params == nil || len(fd.Type.Params.List) != 1 || len(fd.Type.Params.List[0].Names) != 1 {
+		return opShape{}, false
+	}
+	prm := fd.Type.Params.List[0].Names[0].Name
+	// how the factory's closure applies its parameter
+	applied, inOrder := 0, true
+	ast.Inspect(fd.Body, func(n ast.Node) bool {
+		c, ok := n.(*ast.CallExpr)
+		if !ok || len(c.Args) != 2 {
+			return true
+		}
+		if id, ok := c.Fun.(*ast.Ident); !ok || id.Name != prm {
+			return true
+		}
+		switch {
+		case isFirst(c.Args[0]) && isSecond(c.Args[1]):
+			applied++
+		case isSecond(c.Args[0]) && isFirst(c.Args[1]):
+			applied++
+			inOrder = false
+		default:
+			applied += 2 // something other than the two operands: not recognised
+		}
+		return true
+	})
+	if applied != 1 {
+		return opShape{}, false
+	}
+	// the comparator's operation on its two parameters
+	var names []string
+	for _, f := range cd.Type.Params.List {
+		for _, n := range f.Names {
+			names = append(names, n.Name)
+		}
+	}
+	if len(names) != 2 {
+		return opShape{}, false
+	}
+	isNamed := func(n string) func(ast.Expr) bool {
+		return func(e ast.Expr) bool { id, ok := e.(*ast.Ident); return ok && id.Name == n }
+	}
+	var results []ast.Expr
+	ast.Inspect(cd.Body, func(n ast.Node) bool {
+		if r, ok := n.(*ast.ReturnStmt); ok {
+			results = append(results, r.Results...)
+		}
+		return true
+	})
+	sh, ok := binShape(results, isNamed(names[0]), isNamed(names[1]))
+	if !ok {
+		return opShape{}, false
+	}
+	if !inOrder {
+		sh.inOrder = !sh.inOrder
+	}
+	return sh, true
 }
 
 func (s opShape) describe() string {
